@@ -255,16 +255,27 @@ impl KrpcSocket {
 
     fn is_expected_response(&mut self, message: &Message, from: &SocketAddrV4) -> bool {
         // Positive or an error response or to an inflight request.
-        match self.inflight_requests.remove(message.transaction_id) {
-            Some(request) => {
-                if compare_socket_addr(&request.to, from) {
-                    return true;
-                } else {
-                    trace!(
-                        context = "socket_validation",
-                        message = "Response from wrong address"
-                    );
-                }
+        // Only consume the inflight request if the response came from the address
+        // it was sent to, otherwise a spoofed response would cancel the genuine one.
+        let from_expected_address = self
+            .inflight_requests
+            .find_by_tid(message.transaction_id)
+            .ok()
+            .and_then(|index| self.inflight_requests.requests.get(index))
+            .map(|request| compare_socket_addr(&request.to, from));
+
+        match from_expected_address {
+            Some(true) => {
+                return self
+                    .inflight_requests
+                    .remove(message.transaction_id)
+                    .is_some();
+            }
+            Some(false) => {
+                trace!(
+                    context = "socket_validation",
+                    message = "Response from wrong address"
+                );
             }
             None => {
                 trace!(
